@@ -484,3 +484,50 @@ def late_callback_failure(doc):
         return None
 
     return _run(main())
+
+
+# ---------------------------------------------------------------------------------------------------- C18
+def process_scope(doc):
+    """Process.current() inside a step / continuation / call_soon callback of concurrently running and nested processes,
+    and after they return or yield"""
+    import asyncio
+    import plumpy
+    from rprocs import ScopeProc
+
+    async def main():
+        bad = []
+        gate = asyncio.get_event_loop().create_future()
+        a, b = ScopeProc(inputs={'gate': gate}), ScopeProc(inputs={'gate': gate})
+        ta = asyncio.ensure_future(a.step_until_terminated())
+        tb = asyncio.ensure_future(b.step_until_terminated())
+        for _ in range(5):
+            await asyncio.sleep(0)
+            if plumpy.Process.current() is not None:
+                bad.append(f'outside any process code current() is {plumpy.Process.current()}')
+        gate.set_result(True)
+        await asyncio.wait_for(asyncio.gather(ta, tb), 20)
+        for p in (a, b):
+            for where, cur in p.seen:
+                if cur is not p:
+                    bad.append(f'in {where} of {p.pid} current() was {cur}')
+        if plumpy.Process.current() is not None:
+            bad.append('stack not unwound after termination')
+        return '; '.join(bad[:3])
+
+    return _run(main())
+
+
+def hooks_outside_scope(doc):
+    """history: sample Process.current() inside the lifecycle hooks of a running process"""
+    import plumpy
+    from rprocs import HookProc
+
+    async def main():
+        p = HookProc()
+        await p.step_until_terminated()
+        wrong = [w for w, cur in p.seen if cur is not p]
+        if wrong:
+            return f'Process.current() is not the process inside the hooks {wrong}'
+        return None
+
+    return _run(main())
